@@ -181,7 +181,7 @@ V apply_xform(V v, Json const& xf)
     if (k == "sub")
     {
         std::ptrdiff_t W = v.width(), H = v.height();
-        if (W <= 0 || H <= 0) return v;
+        if (W <= 0 || H <= 0) return gil::subimage_view(v, 0, 0, (int)(W > 0 ? 1 + xf.num("c") % W : 0), (int)(H > 0 ? 1 + xf.num("d") % H : 0)); // a view without pixels stays one
         std::ptrdiff_t x = xf.num("a") % W, y = xf.num("b") % H;
         std::ptrdiff_t w = 1 + xf.num("c") % (W - x), hh = 1 + xf.num("d") % (H - y);
         if (xf.num("z")) { w = 0; } // zero-width sub-view is legal
@@ -189,7 +189,8 @@ V apply_xform(V v, Json const& xf)
     }
     if (k == "ss")
     {
-        if (v.width() <= 0 || v.height() <= 0) return v;
+        // views without pixels are transformed too: the result must again be without pixels (the sweeps visit whatever the
+        // resulting view claims to have)
         return gil::subsampled_view(v, (std::ptrdiff_t)(1 + xf.num("a") % 3), (std::ptrdiff_t)(1 + xf.num("b") % 3));
     }
     return v;
